@@ -53,6 +53,12 @@ class ClassVal:
 _MISSING = object()
 
 
+class SuperVal:
+    """super() / super(C, self): attribute lookup starts after C in self's class hierarchy"""
+    def __init__(self, cls, selfval):
+        self.cls, self.selfval = cls, selfval
+
+
 class PropertyVal:
     def __init__(self, fget, fset=None):
         self.fget = fget
@@ -143,6 +149,29 @@ class GenVal:
 
     def __repr__(self):
         return f"<generator {len(self.items) - self.pos} left>"
+
+
+class TextFile(GenVal):
+    """An open text file (or io.StringIO) over known text: iterating consumes lines, newlines kept."""
+    def __init__(self, text_or_lines, name="<file>"):
+        if isinstance(text_or_lines, str):
+            lines = text_or_lines.splitlines(keepends=True)
+        else:
+            lines = [l if l.endswith("\n") else l + "\n" for l in text_or_lines]
+        super().__init__(lines)
+        self.name = name
+
+    def __repr__(self):
+        return f"<file {self.name}>"
+
+
+class PathVal:
+    """pathlib.Path over a concrete path string"""
+    def __init__(self, path):
+        self.path = str(path)
+
+    def __repr__(self):
+        return f"Path({self.path!r})"
 
 
 class ReObj:
